@@ -41,7 +41,8 @@ CHECKS = {
         "flattening as one Descend action per hierarchy level and TLC checks group laws, mirror parity and composed=sequential "
         "on every chain of depth <=4 (quick: depth 4 sampled); every emitted chain is evaluated in the real code through "
         "from_instance cascades, elementary transform cascades and Layout::flatten of a nested library, on 49 grid points. "
-        "Rational (Pythagorean) rotations cover general angles with the half-unit tolerance. Apalache shows composition, closure "
+        "Rational (Pythagorean) rotations cover general angles with the half-unit tolerance, at one level and (MC_D4Pyth2) at two levels of a "
+        "hierarchy whose middle cell is instantiated three times. Apalache shows composition, closure "
         "and isometry of two placements for ALL integer offsets and points (D4Ind.tla).",
    note="Trusted: TLC, the harness's nested-library builder and its 2x2 integer map application. General angles only for "
         "rational sine/cosine.",
@@ -59,7 +60,8 @@ CHECKS = {
    text="The specification is the independent decoder: Trace_GdsStream walks the crate's written bytes record by record through "
         "GdsRecords/GdsGrammar/GdsCodec/GdsReal (length fields, type pairs, payload sizes, grammar order, ENDLIB last, lengths "
         "adding up) and compares the decoded library with the one handed to the writer, for every generated and random library. "
-        "The writer's bytes are also compared with the independent encoder's.",
+        "The writer's bytes are also compared with the independent encoder's; the file route (GdsLibrary::save into fresh paths and "
+        "over existing shorter / longer files) is decoded the same way.",
    note="Trusted: TLC, the four-byte framing in the harness, the projection glue. Nothing of write.rs/read.rs is shared with "
         "the decoder.",
    tech="TLA+ grammar/codec as decoder; I->S trace validation of written streams by TLC"),
@@ -130,7 +132,9 @@ CHECKS = {
         "(every rectangle corner order; L/U/T/staircase/45-degree/general/sliver polygons from every start vertex in both "
         "directions; Manhattan paths x widths) x nets x layers/purposes x units x 3-level hierarchies in 64 orientation pairs. The "
         "structure the crate exports for each cell is validated by TLC against the obligations (I->S); from_gds(to_gds(lib)) is "
-        "compared with lib in canonical form (S->I).",
+        "compared with lib in canonical form (S->I). WideInt / WideContains give the exact sign of 64-bit cross products inside TLC's "
+        "32-bit integers (limb arithmetic, tied to the plain predicates by MC_WideContains), so the label obligation is decided by "
+        "TLC over the whole GDSII coordinate range (shapes at 3e8 and 1e9).",
    note="Trusted: TLC, raw constructor/projection glue, canonical forms. Domain: shapes on one layer number pairwise disjoint "
         "(checked as a TLC invariant of the generator), simple polygons, Manhattan paths.",
    tech="TLA+ export-obligation spec; TLC case enumeration; I->S validation of exported structures + S->I round trip"),
